@@ -679,6 +679,28 @@ class BuiltinMixin(object):
         for st1, seq in self.ev_iter(e.args[0], st):
             if seq.ty is STATIC:
                 raise OutsideSubset("max of static")
+            if isinstance(seq.ty.elem, Ref) and (seq.ty.elem.cls, "__lt__") in self.reg.methods:
+                # max / min over objects ordered by their __lt__ contract: an element no other element is greater (smaller) than
+                ok, bad = self.fork(st1, core.llen(seq) > 0, e.lineno, "max-empty") if not self.in_spec else (st1, None)
+                if bad is not None:
+                    self.do_raise(bad, "ValueError")
+                if ok is None:
+                    continue
+                m = fresh(seq.ty.elem, "max" if is_max else "min")
+                ok = ok.copy()
+                lt = self.reg.methods[(seq.ty.elem.cls, "__lt__")]
+                def less(x, y, ok=ok, lt=lt):
+                    s2 = State()
+                    s2.env = {"self": x, "other": y}
+                    s2.heap, s2.glob, s2.old = ok.heap, ok.glob, None
+                    t = [t_ for t_ in lt.ensures if t_.strip().startswith("result == ")][0]
+                    return truthy(self.spec(t.strip()[len("result == "):], s2))
+                ok.assume(core.lcontains(seq, m),
+                          core.forall_int(0, core.llen(seq), lambda j: z3.Not(less(m, core.lget(seq, j)) if is_max else less(core.lget(seq, j), m))))
+                self.notes.append("max/min over objects: an element with no greater/smaller element under the __lt__ contract "
+                                  "(the builtin's contract over a strict weak order; comparison errors not modelled)")
+                res.append((ok, m))
+                continue
             ok, bad = self.fork(st1, core.llen(seq) > 0, e.lineno, "max-empty") if not self.in_spec else (st1, None)
             if bad is not None:
                 self.do_raise(bad, "ValueError")
